@@ -95,6 +95,15 @@ class SFTPFile(BufferedFile):
         if self.pipelined:
             self.sftp._finish_responses(self)
         BufferedFile.close(self)
+        if not async_:
+            # collect the status of every write still in flight (pipelined
+            # mode defers them): a write the server refused must not be lost
+            while len(self._reqs):
+                req = self._reqs.popleft()
+                t, msg = self.sftp._read_response(req)
+                if t != CMD_STATUS:
+                    raise SFTPError("Expected status")
+                # convert_status already called
         try:
             if async_:
                 # GC'd file handle could be called from an arbitrary thread
